@@ -204,3 +204,26 @@ package twig
 //@   assumed
 //@   pure
 //@   ensures ret == allowedFunction(recv, function)
+
+// ---------------------------------------------------------------- caller data (C18)
+//@ list callerdata_files render.go node.go extension.go render_filter.go expr.go whitespace.go
+// the attribute cache sorts its own private entries
+//@ list callerdata_exempt evictLRUEntries evictLRUEntries$1
+// the loop metadata map stored under "loop" is created by renderForLoop itself
+//@ define loopMapFresh() (typeIs(loopVars["loop"], "map[string]interface{}") && freshRef(unboxAs(loopVars["loop"], "map[string]interface{}")))
+//@ func (*ForNode).renderForLoop props: C18
+//@   loop 3 invariant[C18] loopMapFresh()
+//@   loop 5 invariant[C18] loopMapFresh()
+//@   loop 7 invariant[C18] loopMapFresh()
+
+// ---------------------------------------------------------------- safety sweep (C05)
+// Every function of these files is under the annotation-free safety obligations (index, slice
+// bounds, type assertions, nil-map writes, division, reflect preconditions).
+//@ group safety props: C05
+//@ applyfile safety extension.go
+//@ applyfile safety render.go
+//@ applyfile safety render_filter.go
+//@ applyfile safety node.go
+//@ applyfile safety compiled.go
+//@ applyfile safety whitespace.go
+//@ applyfile safety utility.go
